@@ -157,6 +157,7 @@ func (tree *Tree[T]) Clean(prefix string) {
 	}
 
 	tree.node.clean(prefix)
+	tree.buildMethods(0)
 }
 
 // Remove 移除路由项
@@ -173,7 +174,13 @@ func (tree *Tree[T]) Remove(pattern string, methods ...string) {
 		return
 	}
 
+	removed := make([]string, 0, len(child.handlers)) // 实际被删除的请求方法
 	if len(methods) == 0 {
+		for m := range child.handlers {
+			if isCountedMethod(m) {
+				removed = append(removed, m)
+			}
+		}
 		child.handlers = nil
 	} else {
 		for _, m := range methods {
@@ -183,6 +190,9 @@ func (tree *Tree[T]) Remove(pattern string, methods ...string) {
 				delete(child.handlers, http.MethodHead)
 				fallthrough
 			default:
+				if _, found := child.handlers[m]; found && isCountedMethod(m) {
+					removed = append(removed, m)
+				}
 				delete(child.handlers, m)
 			}
 		}
@@ -205,7 +215,7 @@ func (tree *Tree[T]) Remove(pattern string, methods ...string) {
 		child = child.parent
 	}
 
-	tree.buildMethods(-1, methods...)
+	tree.buildMethods(-1, removed...)
 }
 
 // 获取指定的节点，若节点不存在，则在该位置生成一个新节点。
